@@ -86,7 +86,8 @@ def edit_in_place(o, r, keys):
             return f"grow-list {p}"
         kind = "set-leaf"
     if kind == "add":
-        absent = [k for k in (keys or []) if k not in ("S", "T", "L") and U.lookup(k, o) is U.ABSENT and _settable(o, k)]
+        absent = [k for k in (keys or []) if k not in ("S", "T", "L") and not any(part.isdigit() for part in k.split("."))
+                  and U.lookup(k, o) is U.ABSENT and _settable(o, k)]
         if absent:
             k = r.choice(absent)
             _set(o, k, r.choice(U.SCALARS))
@@ -167,7 +168,7 @@ def steps(r, base, keys, n=7):
                 yield "same-object " + label, A
         elif k < 0.8:
             # fail-then-complete: delete a key in place, call, put it back in place, call again
-            paths = [p for p in U.leaf_paths(A) if isinstance(_container(A, p), dict)]
+            paths = [p for p in U.leaf_paths(A) if isinstance(_container(A, p), dict) and U.lookup(p, A) is not U.ABSENT]
             if paths:
                 p = r.choice(paths)
                 saved = copy.deepcopy(U.lookup(p, A))
